@@ -14,7 +14,7 @@ from ..loader import AnalysisError, unparse, call_name
 from ..dataflow import linform, lin_eq, lin_str, single_assign_subst, target_names
 from ..solver_model import Sweep, iter_partition, eval_calls, series_mutation
 
-TECHNIQUE = ('static analysis: three-valued (IEEE unordered) branch feasibility walk over a hand-built CFG of the sweep (private helpers inlined at the syntax level); feasible-path search with truthiness constants from every evaluation-error handler to the commit; value flow of the evaluation result through tuples; linear-form normalisation of index expressions')
+TECHNIQUE = ('static analysis: three-valued (IEEE unordered) branch feasibility walk over a hand-built CFG of the sweep (private helpers inlined at the syntax level); feasible-path search with truthiness constants from every evaluation-error handler to the commit; value flow of the evaluation result through tuples; linear-form normalisation of index expressions; the token-exact renamer clause of C13.R1 and the generated-solver template clauses of C20 are decided by those rule modules and recorded here as R7 / R8')
 EXPLANATION = (
     'Decides, on every path of the sweep function, that a NaN convergence measure cannot reach the commit of a period, '
     'that the error measure ranges over exactly the evaluated block with an abs(new-old) term on every path, that lagged '
@@ -406,13 +406,19 @@ def run(prog, check):
     if renamers_:
         b13 = Borrowed(check, lambda rule, key: rule == 'C13.R1' and any(('::%s::' % r_) in key for r_ in renamers_), 'C02.R7',
                        'inc = wage next to inc_tax = 0.2*inc: substituting inc must leave inc_tax alone')
-        _c13.run(prog, b13)
+        b13.run_lender(_c13, prog)
     # ---- R8: the stand-alone solver the package generates stops on the same terms (template clauses of C20.R2 / C20.R4) ------------
     if not getattr(check, '_borrowing', False):
         from . import C20 as _c20
         b20 = Borrowed(check, lambda rule, key: rule in ('C20.R2', 'C20.R4') and '::template-' in key, 'C02.R8',
                        'a generated module run on a simultaneous block: its stored values must satisfy the equations')
-        _c20.run(prog, b20)
+        b20.run_lender(_c20, prog)
+    # ---- R3 (cont.): the optional steady-state start touches the submitted paths at k=0 only (the write-set clause of C15.R2) ---------
+    if not getattr(check, '_borrowing', False):
+        from . import C15 as _c15
+        b15 = Borrowed(check, lambda rule, key: rule == 'C15.R2' and '::self-write(' in key, 'C02.R3',
+                       'an exogenous path with a step at the last period, solved with the initial steady-state option on')
+        b15.run_lender(_c15, prog)
     check.floor('C02.R6', 2)
     check.floor('C02.R1', 2)
     check.floor('C02.R2', 4)
